@@ -77,10 +77,32 @@ def theorem_names(vfile):
     return src, names, printed
 
 
-def scan_forbidden():
+def dep_closure(roots):
+    """.v files (relative to COQ) that the given files transitively import from this development"""
+    seen, todo = [], list(roots)
+    while todo:
+        rel = todo.pop()
+        if rel in seen or not os.path.exists(os.path.join(COQ, rel)):
+            continue
+        seen.append(rel)
+        with open(os.path.join(COQ, rel), encoding="utf-8") as f:
+            text = re.sub(r"\(\*.*?\*\)", " ", f.read(), flags=re.S)
+        for m in re.finditer(r"From\s+V\s+Require\s+(?:Import\s+|Export\s+)?(.*?)\.(?=\s|$)", text, flags=re.S):
+            for mod in m.group(1).split():
+                todo.append(mod.replace(".", "/") + ".v")
+    return seen
+
+
+def scan_forbidden(prop=None):
+    """forbidden constructs in the files the property's theorems and harness depend on (the whole
+    development when prop is None)"""
     hits = []
-    for path in glob.glob(os.path.join(COQ, "**", "*.v"), recursive=True):
-        rel = os.path.relpath(path, COQ)
+    if prop is None:
+        paths = [os.path.relpath(p, COQ) for p in glob.glob(os.path.join(COQ, "**", "*.v"), recursive=True)]
+    else:
+        paths = dep_closure(["Props/%s.v" % prop, "Harness/H%s.v" % prop[1:]])
+    for rel in paths:
+        path = os.path.join(COQ, rel)
         if rel.startswith("Cases") or rel.startswith(".scratch"):
             continue
         with open(path, encoding="utf-8") as f:
@@ -136,7 +158,7 @@ def build_props(prop, timeout=1500):
     if missing:
         res["broken"] = {"theorem": "Props/%s.v:%s" % (prop, missing[0]), "message": "theorem without Print Assumptions"}
         return res
-    res["forbidden"] = scan_forbidden()
+    res["forbidden"] = scan_forbidden(prop)
     if res["forbidden"]:
         res["broken"] = {"theorem": "development", "message": "forbidden construct: " + res["forbidden"][0]}
         return res
